@@ -1,7 +1,9 @@
 // Concurrent families of the C07 harness, each run over every store configuration (env.go):
 // conc    - free-running goroutines: several callers on the sequence under test, other sequences (different keys) on the
-//           same view and on sibling views, sibling views being opened meanwhile; on a buffering store Flush faults and a
-//           final phase in which every Flush fails; then power loss, restart, further draws.
+//
+//	same view and on sibling views, sibling views being opened meanwhile; on a buffering store Flush faults and a
+//	final phase in which every Flush fails; then power loss, restart, further draws.
+//
 // windows - a second operation is started at every store-operation boundary of the first caller's operations.
 package main
 
@@ -43,7 +45,7 @@ func concRun(st *vx.Stats, c cfg, sp concSpec) bool {
 	case <-time.After(60 * time.Second):
 		why = "hang: the run did not finish within 60 s"
 	}
-	st.Count("conc:runs:" + c.Store)
+	st.Count("conc:runs:" + c.family())
 	if why == "" {
 		return true
 	}
@@ -119,6 +121,9 @@ func concBody(c cfg, sp concSpec, out **env) string {
 						d.next()
 						d.next()
 					}
+					ms, mp := en.openSibling("maint/", n%2 == 1)
+					en.maintain(ms, mp, "fill")
+					en.maintain(ms, mp, maintOps[n%len(maintOps)])
 					runtime.Gosched()
 				}
 			}()
@@ -202,6 +207,8 @@ func concCfgs(r *vx.Rng) []cfg {
 		{Store: "flush"},
 		{Store: "flushrealm", Chain: []level{l("db/", r.Bool()), l("seq/", true)}},
 		{Store: "flushrealm", Chain: []level{l("a/", true), l("seq/", false)}},
+		{Store: "realm", Debug: vx.Pick(r, []string{"nil", "none", "get", "notset"}), DebugAt: vx.Pick(r, []string{"top", "view"}), Chain: []level{l("db/", r.Bool()), l("seq/", r.Bool())}},
+		{Store: vx.Pick(r, []string{"root", "flush"}), Debug: vx.Pick(r, []string{"nil", "all", "set", "get"}), DebugAt: vx.Pick(r, []string{"top", "under"})},
 	}
 }
 
@@ -330,6 +337,9 @@ func windowRun(st *vx.Stats, c cfg, interval uint64, ops []string, at int64, int
 					d.next()
 				}
 				viewDecoy.next()
+				ms, mp := en.openSibling("maint/", at%2 == 1)
+				en.maintain(ms, mp, "fill")
+				en.maintain(ms, mp, maintOps[int(at)%len(maintOps)])
 			}
 			intruding.Store(false)
 			close(done)
@@ -380,7 +390,7 @@ func windowRun(st *vx.Stats, c cfg, interval uint64, ops []string, at int64, int
 			why = fmt.Sprintf("the store holds keys %q that belong to no sequence of this run", stray)
 		}
 	}
-	st.Count("windows:runs:" + c.Store)
+	st.Count("windows:runs:" + c.family())
 	if why != "" {
 		st.Fail(map[string]any{"sig": "", "kind": "second operation started at a store-operation boundary of the first", "store": c, "interval": interval,
 			"ops": ops, "intruder": intruder, "at_store_boundary": at, "returned": all, "why": why, "other_sequences": en.decoyReport()})
